@@ -44,6 +44,8 @@ def _scan_place(p, toks):
     for e in p.get("p") or []:
         if isinstance(e, dict) and "f" in e and e.get("n"):
             toks.add("field:" + e["n"])
+        if isinstance(e, dict) and "d" in e:
+            toks.add("variant:" + e["d"])
 
 
 def _scan_op(o, toks):
@@ -71,5 +73,7 @@ def _scan(rv, toks):
     elif r == "un":
         _scan_op(rv["a"], toks)
     elif r == "agg":
+        if rv.get("k") == "adt":
+            toks.add("agg:%s::%s" % (rv.get("adtn"), rv.get("v")))
         for x in rv["fields"]:
             _scan_op(x, toks)
